@@ -2,14 +2,17 @@ package main
 
 import (
 	"bufio"
+	"context"
 	"fmt"
 	"io"
 	"log"
 	"os"
+	"os/exec"
 	"path/filepath"
 	"sort"
 	"strings"
 	"sync"
+	"time"
 
 	z80 "github.com/koron-go/z80"
 	"github.com/koron-go/z80/internal/verif/refz80"
@@ -203,8 +206,19 @@ func implementedSet(c *Ctx) (*ImplementedSet, error) {
 	}
 	res := &ImplementedSet{}
 	nValid := 0
+	// The prepass executes *every* encoding, unsupported ones included, and those are outside most properties'
+	// quantifiers: it runs in a child process, so that a tree which brings the process down on an unsupported
+	// op-code (log.Fatal, os.Exit, a runtime fatal error: C12's subject) does not take this check with it. If the
+	// child gives no complete answer the pinned set is assumed (no extra encodings, none missing).
+	measured, childOK := implementedFromChild()
+	if !childOK {
+		c.Set("implemented_prepass", "the child process that executes every encoding once ended without a complete answer; the pinned set of implemented.txt is assumed")
+	}
 	for _, e := range allEncodings() {
-		ok, _ := implementedByStep(e.Fixed)
+		ok := e.Valid
+		if childOK {
+			ok = measured[hexBytes(e.Fixed)]
+		}
 		if e.Valid {
 			nValid++
 			if !pinned[e.Name] {
@@ -229,4 +243,36 @@ func implementedSet(c *Ctx) (*ImplementedSet, error) {
 		return nil, fmt.Errorf("framework error: model implements %d encodings, implemented.txt lists %d", nValid, len(pinned))
 	}
 	return res, nil
+}
+
+// implementedChild is `vz80 implementedchild`: one line per encoding whose Step did not log, then END.
+func implementedChild() int {
+	w := bufio.NewWriter(os.Stdout)
+	for _, e := range allEncodings() {
+		if ok, _ := implementedByStep(e.Fixed); ok {
+			fmt.Fprintln(w, hexBytes(e.Fixed))
+		}
+	}
+	fmt.Fprintln(w, "END")
+	w.Flush()
+	return 0
+}
+
+func implementedFromChild() (map[string]bool, bool) {
+	self, err := os.Executable()
+	if err != nil {
+		return nil, false
+	}
+	ctx, cancel := context.WithTimeout(context.Background(), 90*time.Second)
+	defer cancel()
+	out, _ := exec.CommandContext(ctx, self, "implementedchild").Output()
+	lines := strings.Split(strings.TrimSpace(string(out)), "\n")
+	if len(lines) == 0 || lines[len(lines)-1] != "END" {
+		return nil, false
+	}
+	m := map[string]bool{}
+	for _, l := range lines[:len(lines)-1] {
+		m[l] = true
+	}
+	return m, true
 }
